@@ -1,5 +1,8 @@
 import Uom.Proofs.OpsExact
 import Uom.Proofs.FlConvIdentity
+import Uom.Proofs.BodyEq.Arith
+import Uom.Proofs.BodyEq.Cmp
+import Uom.Proofs.BodyEq.Fwd
 /-!
 # C07 — same-base operations equal the storage type's operations over any history
 
@@ -87,5 +90,99 @@ theorem history_fixint (name : String) (bits : Nat) (signed : Bool) (l : Rat) (h
 example : (match runQ (flTy "f64" b64) (Fl.ofBits b64 0x3f847ae147ae147b) (Fl.ofBits b64 0x3ff0000000000000)
       [⟨.add, Fl.ofBits b64 0x3fb999999999999a⟩, ⟨.sub, Fl.ofBits b64 0x4004000000000000⟩, ⟨.lt, Fl.ofBits b64 0x401c000000000000⟩] with
     | .ok v => Fl.toBits b64 v | _ => 0) = 0xbff6666666666666 := by decide +kernel
+
+/-! ### tie to the source: the function bodies regenerated from /repo/src on this run
+
+`Gen.Body.*` below is what the translator read from the Rust source just now; `Body.run` evaluates it
+over any storage type.  These theorems state the property's code path *for the regenerated bodies*:
+they fail to check as soon as the source computes something else. -/
+section SourceTie
+open Uom.Body Uom.Gen.Body
+
+/-- autoconvert **off**: every regenerated operator body is the bare operation on the stored values -/
+theorem src_off_is_raw (N : NumTy) (env : Env N) (a b : N.S.V) :
+    run N env system_Add_for_Quantity_add_noauto [argQ a, argQ b] = .q (rawBin N .add a b) ∧
+    run N env system_Sub_for_Quantity_sub_noauto [argQ a, argQ b] = .q (rawBin N .sub a b) ∧
+    run N env system_Rem_for_Quantity_rem_noauto [argQ a, argQ b] = .q (rawBin N .rem a b) ∧
+    run N env system_Mul_Quantity_for_Quantity_mul_noauto [argQ a, argQ b] = .q (rawBin N .mul a b) ∧
+    run N env system_Div_Quantity_for_Quantity_div_noauto [argQ a, argQ b] = .q (rawBin N .div a b) ∧
+    run N env system_AddAssign_for_Quantity_add_assign_noauto [argQ a, argQ b] = .v (rawBin N .add a b) ∧
+    run N env system_SubAssign_for_Quantity_sub_assign_noauto [argQ a, argQ b] = .v (rawBin N .sub a b) ∧
+    run N env system_RemAssign_for_Quantity_rem_assign_noauto [argQ a, argQ b] = .v (rawBin N .rem a b) ∧
+    run N env system_PartialEq_for_Quantity_eq_noauto [argQ a, argQ b] = .v (rawBin N .eq a b) ∧
+    run N env system_PartialOrd_for_Quantity_lt_noauto [argQ a, argQ b] = .v (rawBin N .lt a b) ∧
+    run N env system_PartialOrd_for_Quantity_le_noauto [argQ a, argQ b] = .v (rawBin N .le a b) ∧
+    run N env system_PartialOrd_for_Quantity_gt_noauto [argQ a, argQ b] = .v (rawBin N .gt a b) ∧
+    run N env system_PartialOrd_for_Quantity_ge_noauto [argQ a, argQ b] = .v (rawBin N .ge a b) ∧
+    run N env system_PartialOrd_for_Quantity_partial_cmp_noauto [argQ a, argQ b] = .v (rawBin N .pcmp a b) :=
+  ⟨rfl, rfl, rfl, rfl, rfl, rfl, rfl, rfl, rfl, rfl, rfl, rfl, rfl, rfl⟩
+
+/-- autoconvert **on**, operands sharing base units (`Ul = Ur`, base factor `l`), wherever same-base
+    `change_base` is the identity at the operand (`changeBase_same_*` above): again the bare operation -/
+theorem src_on_same_base_is_raw (N : NumTy) (env : Env N) (a b : N.S.V)
+    (hD : env.bf .Ur .D = env.bf .Ul .D) (hDr : env.bf .Ur .Dr = env.bf .Ul .Dr)
+    (hid : changeBase N.S (env.bf .Ul .D) (env.bf .Ul .D) b = b)
+    (hidr : changeBase N.S (env.bf .Ul .Dr) (env.bf .Ul .Dr) b = b) :
+    run N env system_Add_Quantity_for_Quantity_add_auto [argQ a, argQ b] = .q (rawBin N .add a b) ∧
+    run N env system_Sub_Quantity_for_Quantity_sub_auto [argQ a, argQ b] = .q (rawBin N .sub a b) ∧
+    run N env system_Rem_Quantity_for_Quantity_rem_auto [argQ a, argQ b] = .q (rawBin N .rem a b) ∧
+    run N env system_Mul_Quantity_for_Quantity_mul_auto [argQ a, argQ b] = .q (rawBin N .mul a b) ∧
+    run N env system_Div_Quantity_for_Quantity_div_auto [argQ a, argQ b] = .q (rawBin N .div a b) ∧
+    run N env system_AddAssign_Quantity_for_Quantity_add_assign_auto [argQ a, argQ b] = .v (rawBin N .add a b) ∧
+    run N env system_SubAssign_Quantity_for_Quantity_sub_assign_auto [argQ a, argQ b] = .v (rawBin N .sub a b) ∧
+    run N env system_RemAssign_Quantity_for_Quantity_rem_assign_auto [argQ a, argQ b] = .v (rawBin N .rem a b) ∧
+    run N env system_PartialEq_Quantity_for_Quantity_eq_auto [argQ a, argQ b] = .v (rawBin N .eq a b) ∧
+    run N env system_PartialOrd_Quantity_for_Quantity_lt_auto [argQ a, argQ b] = .v (rawBin N .lt a b) ∧
+    run N env system_PartialOrd_Quantity_for_Quantity_partial_cmp_auto [argQ a, argQ b] = .v (rawBin N .pcmp a b) := by
+  refine ⟨?_, ?_, ?_, ?_, ?_, ?_, ?_, ?_, ?_, ?_, ?_⟩
+  · rw [BodyEq.add_auto_eq, hD, op_is_raw N .add _ a b hid]; rfl
+  · rw [BodyEq.sub_auto_eq, hD, op_is_raw N .sub _ a b hid]; rfl
+  · rw [BodyEq.rem_auto_eq, hD, op_is_raw N .rem _ a b hid]; rfl
+  · rw [BodyEq.mul_auto_eq, hDr, op_is_raw N .mul _ a b hidr]; rfl
+  · rw [BodyEq.div_auto_eq, hDr, op_is_raw N .div _ a b hidr]; rfl
+  · rw [BodyEq.add_assign_auto_eq, hD, op_is_raw N .adda _ a b hid]; rfl
+  · rw [BodyEq.sub_assign_auto_eq, hD, op_is_raw N .suba _ a b hid]; rfl
+  · rw [BodyEq.rem_assign_auto_eq, hD, op_is_raw N .rema _ a b hid]; rfl
+  · rw [BodyEq.eq_auto_eq, hD, op_is_raw N .eq _ a b hid]; rfl
+  · rw [BodyEq.lt_auto_eq, hD, op_is_raw N .lt _ a b hid]; rfl
+  · rw [BodyEq.partial_cmp_auto_eq, hD, op_is_raw N .pcmp _ a b hid]; rfl
+
+/-- scalars and negation never convert -/
+theorem src_scalar_is_raw (N : NumTy) (env : Env N) (a k : N.S.V) :
+    run N env system_Mul_V_for_Quantity_mul [argQ a, argV k] = .q (rawBin N .mul a k) ∧
+    run N env system_Div_V_for_Quantity_div [argQ a, argV k] = .q (rawBin N .div a k) ∧
+    run N env system_MulAssign_V_for_Quantity_mul_assign [argQ a, argV k] = .v (rawBin N .mul a k) ∧
+    run N env system_DivAssign_V_for_Quantity_div_assign [argQ a, argV k] = .v (rawBin N .div a k) ∧
+    run N env system_Mul_Quantity_for_V_mul [argV k, argQ a] = .q (rawBin N .mul k a) ∧
+    run N env system_Div_Quantity_for_V_div [argV k, argQ a] = .q (rawBin N .div k a) :=
+  ⟨rfl, rfl, rfl, rfl, rfl, rfl⟩
+
+/-- the forwarded methods call the *same-named* method of the storage type on the stored value(s) -/
+theorem src_forwarded (N : NumTy) (env : Env N) (a b : N.S.V) :
+    run N env system_inherent_Quantity_abs [argQ a] = (env.fwd m_abs [argV a]).asQuantity ∧
+    run N env system_inherent_Quantity_signum [argQ a] = (env.fwd m_signum [argV a]).asQuantity ∧
+    run N env system_inherent_Quantity_recip [argQ a] = (env.fwd m_recip [argV a]).asQuantity ∧
+    run N env system_inherent_Quantity_sqrt [argQ a] = (env.fwd m_sqrt [argV a]).asQuantity ∧
+    run N env system_inherent_Quantity_cbrt [argQ a] = (env.fwd m_cbrt [argV a]).asQuantity ∧
+    run N env system_inherent_Quantity_max [argQ a, argQ b] = (env.fwd m_max [argV a, argV b]).asQuantity ∧
+    run N env system_inherent_Quantity_min [argQ a, argQ b] = (env.fwd m_min [argV a, argV b]).asQuantity ∧
+    run N env system_Ord_for_Quantity_max [argQ a, argQ b] = (env.fwd m_max [argV a, argV b]).asQuantity ∧
+    run N env system_Ord_for_Quantity_min [argQ a, argQ b] = (env.fwd m_min [argV a, argV b]).asQuantity ∧
+    run N env system_Ord_for_Quantity_cmp [argQ a, argQ b] = env.fwd m_cmp [argV a, argV b] ∧
+    run N env system_Saturating_for_Quantity_saturating_add [argQ a, argQ b] = (env.fwd m_saturating_add [argV a, argV b]).asQuantity ∧
+    run N env system_Saturating_for_Quantity_saturating_sub [argQ a, argQ b] = (env.fwd m_saturating_sub [argV a, argV b]).asQuantity ∧
+    run N env system_inherent_Quantity_hypot_noauto [argQ a, argQ b] = (env.fwd m_hypot [argV a, argV b]).asQuantity ∧
+    run N env system_inherent_Quantity_classify [argQ a] = env.fwd m_classify [argV a] ∧
+    run N env system_inherent_Quantity_is_nan [argQ a] = env.fwd m_is_nan [argV a] ∧
+    run N env system_inherent_Quantity_is_infinite [argQ a] = env.fwd m_is_infinite [argV a] ∧
+    run N env system_inherent_Quantity_is_finite [argQ a] = env.fwd m_is_finite [argV a] ∧
+    run N env system_inherent_Quantity_is_normal [argQ a] = env.fwd m_is_normal [argV a] ∧
+    run N env system_inherent_Quantity_is_sign_positive [argQ a] = env.fwd m_is_sign_positive [argV a] ∧
+    run N env system_inherent_Quantity_is_sign_negative [argQ a] = env.fwd m_is_sign_negative [argV a] ∧
+    run N env system_Zero_for_Quantity_is_zero [argQ a] = env.fwd m_is_zero [argV a] ∧
+    run N env system_Neg_for_Quantity_neg [argQ a] = .q ((N.neg a).bind fun v => .ok (.val v)) :=
+  ⟨rfl, rfl, rfl, rfl, rfl, rfl, rfl, rfl, rfl, rfl, rfl, rfl, rfl, rfl, rfl, rfl, rfl, rfl, rfl, rfl, rfl, rfl⟩
+
+end SourceTie
 
 end Uom.C07
